@@ -156,6 +156,10 @@ where
                 break;
             }
         }
+        if trimbegin == self.textlen() {
+            //everything was trimmed (both loops ran over the whole text): what remains is the empty text at the end
+            trimend = 0;
+        }
         self.textselection(&Offset::new(
             Cursor::BeginAligned(trimbegin),
             Cursor::EndAligned(trimend),
@@ -183,6 +187,10 @@ where
             } else {
                 break;
             }
+        }
+        if trimbegin == self.textlen() {
+            //everything was trimmed (both loops ran over the whole text): what remains is the empty text at the end
+            trimend = 0;
         }
         self.textselection(&Offset::new(
             Cursor::BeginAligned(trimbegin),
